@@ -274,8 +274,13 @@ PROPS["C09"] = {
 PROPS["C04"] = {
     "parts": [{"name": "bind", "pkg": "c04", "chk": "chk_c04"}, {"name": "e2e", "pkg": "c04", "chk": "chk_c04", "args": ["e2e"]},
               {"name": "iso", "pkg": "c04", "chk": "chk_c04_iso", "args": ["iso"]},
-              {"name": "anyelem", "pkg": "c04", "chk": "chk_c04_ref", "args": ["anyelem"]}],
-    "reasons": {"anyelem": {"7": "the message produced from a body bound to a field (or the text rendered for a response_body field) differs from canonical proto3 JSON with the TARGET's own descriptors: google.protobuf.Any values of a target-only type as the whole body, a singular field, list elements, map values, nested one level down", "4": "the transcoder panicked"},
+              {"name": "anyelem", "pkg": "c04", "chk": "chk_c04_ref", "args": ["anyelem"]},
+              {"name": "wktparam", "pkg": "c04", "chk": "chk_c04_text", "args": ["wktparam"], "crash_reasons": {"*": 4}}],
+    "reasons": {"wktparam": {"8": "the text the canonical proto3 JSON encoder emits for a Timestamp / Duration (within Go's time.Duration) value, given as a query parameter, path variable, nested or repeated parameter, does not arrive as that value",
+                             "7": "a Timestamp / Duration / Value / Struct parameter text that canonical proto3 JSON parsing also accepts is stored as a different value",
+                             "2": "a parameter text that does not parse is refused with something other than InvalidArgument",
+                             "4": "the transcoder panicked"},
+                "anyelem": {"7": "the message produced from a body bound to a field (or the text rendered for a response_body field) differs from canonical proto3 JSON with the TARGET's own descriptors: google.protobuf.Any values of a target-only type as the whole body, a singular field, list elements, map values, nested one level down", "4": "the transcoder panicked"},
                 "iso": {"6": "the message a request produced (or the text a response was rendered to) depends on which OTHER targets the same bridge served before: a request with a google.protobuf.Any value gave a different result through the shared transcoder than through a transcoder of its own"},
                 "e2e": {"1": "(unused in this part)", "2": "an HTTP status other than 400 for a value that does not parse (500 only for an unresolvable body path)", "3": "(unused in this part)", "4": "the handler panicked"},
                 "bind": {"1": "the request message depends on which protobuf types are registered in the bridge process (clean vs poisoned global registry)",
